@@ -5,7 +5,8 @@
    governance emitter and every finite history of inputs whose guardian sets have pairwise distinct keys (<= 256). *)
 From Coq Require Import List ZArith Bool Lia.
 From Coq Require Import Strings.Byte.
-From WH Require Import lib.Bytes gen.Extracted model.Vaa model.Processor model.ProcSpec proofs.VaaProofs proofs.ProcC01Proofs.
+From WH Require Import lib.Bytes gen.Extracted gen.ExtractedWiring model.Vaa model.Processor model.ProcSpec model.System proofs.VaaProofs proofs.ProcC01Proofs
+     proofs.SystemProofs.
 Import ListNotations.
 Open Scope Z_scope.
 
@@ -264,6 +265,114 @@ Proof.
   - rewrite E. reflexivity.
 Qed.
 
+(* ================================================================== the network (model/System.v) ==================================
+   N guardian nodes, each the processor model above with its own signer and address ([owns i], [signs i]), and an adversarial
+   network: a step is an environment input to one node, the delivery to one node of any item put on the wire earlier (any order,
+   duplication, loss) or of an arbitrary adversary-made observation / VAA byte string, or a node's own loopback.
+   The composition's wiring (which component feeds which processor handler, who reads the processor's outputs, how the downstream
+   consumers get the bytes) is the wiring read from node.go, processor.go, explorer-backend/main.go and spy.go on every run. *)
+Theorem C01_composition_wiring_is_the_wiring_of_node_go :
+  system_wiring = extracted_wiring /\ system_consumers = extracted_consumers.
+Proof. exact (conj wiring_matches consumers_match). Qed.
+
+(* network-level C01: in EVERY network history (any number of nodes, any adversary traffic, any interleaving) every output of
+   every step of every node satisfies the single-node statement, with respect to what THAT node observed and the sets THAT node
+   learned from chain ([net_steps_c01], unfolded in proofs/SystemProofs.v) *)
+Theorem C01_network_every_published_vaa_is_quorum_valid :
+  forall recover keccak gov_chain gov_addr owns signs N (xs : list nop),
+    Forall nop_wf xs -> net_steps_c01 recover keccak gov_chain gov_addr owns signs (ninit N) ghost0 xs.
+Proof. exact net_c01. Qed.
+
+(* ... and what every node persists (and serves, C12) after any network history *)
+Theorem C01_network_stores_hold_only_quorum_valid_vaas :
+  forall recover keccak gov_chain gov_addr owns signs N (xs : list nop) i st,
+    Forall nop_wf xs ->
+    nth_error (nodes (fst (nrun recover keccak gov_chain gov_addr owns signs (ninit N) xs))) i = Some st ->
+    Forall (stored_ok recover keccak (net_learned i xs)) (db st).
+Proof. exact net_store. Qed.
+
+(* the lifting principle: what happens to node i in a network history IS a history of the single-node model (the inputs the network
+   resolved for it, in order), so every single-node theorem (C01, C02, C03, C13, C14) holds of every node of every network *)
+Theorem C01_network_node_history_is_a_processor_history :
+  forall recover keccak gov_chain gov_addr owns signs N (xs : list nop) i, (i < N)%nat ->
+    let ops := ops_of i (trace recover keccak gov_chain gov_addr owns signs (ninit N) xs) in
+    nth_error (nodes (fst (nrun recover keccak gov_chain gov_addr owns signs (ninit N) xs))) i =
+      Some (fst (run recover keccak (signs i) (owns i) gov_chain gov_addr init ops)) /\
+    (Forall nop_wf xs -> Forall op_wf ops).
+Proof.
+  intros recover keccak gov_chain gov_addr owns signs N xs i Hi. split.
+  - exact (projection_init recover keccak gov_chain gov_addr owns signs N xs i Hi).
+  - exact (projected_wf recover keccak gov_chain gov_addr owns signs (ninit N) xs i).
+Qed.
+
+(* agreement.  Any two quorum-valid VAAs of one guardian set, whatever their bodies, carry valid signatures of a common set of more
+   than a third of the guardians (C07's intersection) ... *)
+Theorem C01_two_quorum_vaas_share_signers :
+  forall recover keccak v1 v2 K, qvalid recover keccak v1 K -> qvalid recover keccak v2 K ->
+  exists common : list addr, NoDup common /\ incl common K /\ 3 * Z.of_nat (length common) > Z.of_nat (length K) /\
+    forall a, In a common -> signed_by recover keccak v1 a /\ signed_by recover keccak v2 a.
+Proof. exact two_quorums_share_signers. Qed.
+
+(* ... hence equivocation resistance WITHOUT a cryptographic assumption: if at most a third of the set is faulty and no other
+   member has valid signatures over two different digests (a hypothesis about the recovery oracle: honest signers sign one digest
+   per message and signatures cannot be forged), two quorum-valid VAAs of the set have the same digest *)
+Theorem C01_no_conflicting_quorum_vaas :
+  forall recover keccak v1 v2 K (faulty : list addr), qvalid recover keccak v1 K -> qvalid recover keccak v2 K ->
+  3 * Z.of_nat (length faulty) <= Z.of_nat (length K) ->
+  (forall a, In a K -> ~ In a faulty -> signed_by recover keccak v1 a -> signed_by recover keccak v2 a -> dg keccak v1 = dg keccak v2) ->
+  dg keccak v1 = dg keccak v2.
+Proof. exact no_conflicting_quorums. Qed.
+
+(* two honest nodes that publish for the same chain message under the same set publish the same VAA up to the signature section:
+   same body, digest, identifier and header, and their signer sets overlap in more than a third of the set *)
+Theorem C01_honest_publications_of_one_message_agree :
+  forall recover keccak m g sgi sgj,
+  let vi := set_sigs (vaa_of_message (gidx g) m) sgi in let vj := set_sigs (vaa_of_message (gidx g) m) sgj in
+  qvalid recover keccak vi (keys g) -> qvalid recover keccak vj (keys g) ->
+  body vi = body vj /\ dg keccak vi = dg keccak vj /\ id_of vi = id_of vj /\ set_sigs vi [] = set_sigs vj [] /\
+  exists common : list addr, NoDup common /\ incl common (keys g) /\ 3 * Z.of_nat (length common) > Z.of_nat (length (keys g)) /\
+    forall a, In a common -> signed_by recover keccak vi a /\ signed_by recover keccak vj a.
+Proof. exact honest_publications_agree. Qed.
+
+(* the ghost log names, for a chain observation, exactly the VAA built from the message's fields under the set in force *)
+Theorem C01_chain_origin_is_the_message_under_the_set_in_force :
+  forall keccak sign own gc ga st o v snap, In (v, snap, true) (origin_of keccak sign own gc ga st o) ->
+  exists m g, o = LocalMsg m /\ cur st = Some g /\ v = vaa_of_message (gidx g) m /\ snap = Some g.
+Proof. exact origin_of_chain_form. Qed.
+
+(* non-vacuity: two guardians (toy oracles), both observe the message, node 1's observation travels to node 0, node 0's own
+   signature loops back, node 0 publishes, the published bytes travel to node 1, which stores them byte for byte *)
+Definition nx_owns (i : nat) : addr := repeat (byte_of_Z (Z.of_nat i + 1)) 20.
+Definition nx_signs (i : nat) (d : bytes) : bytes := nx_owns i ++ repeat x00 45.
+Definition nx_G : gset := {| keys := [nx_owns 0; nx_owns 1]; gidx := 3 |}.
+Definition nx_hist : list nop :=
+  [NEnv 0 (ESetGS nx_G); NEnv 1 (ESetGS nx_G); NEnv 1 (EMsg ex_msg); NEnv 0 (EMsg ex_msg); NDeliver 0 0; NLoop 0 0; NDeliver 1 2].
+Example C01_network_history_with_a_publish_and_a_peer_store :
+  Forall nop_wf nx_hist /\
+  let r := nrun ex_recover ex_keccak 1 (repeat x00 32) nx_owns nx_signs (ninit 2) nx_hist in
+  match nth_error (snd r) 5, nth_error (snd r) 6 with
+  | Some [Store i b; SendVAA b'], Some [Store i' b''] => i = i' /\ b = b' /\ b = b'' /\ pool (fst r) <> []
+  | _, _ => False
+  end.
+Proof.
+  split.
+  - repeat constructor; try exact I; cbn [nx_G keys length]; try lia; try (intros [H|[]]; discriminate H); intros [].
+  - vm_compute. repeat split; discriminate.
+Qed.
+
+(* ... and two different quorum VAAs of one set of four (signers 0,1,2 and 1,2,3: quorum 3, two common signers) satisfy the
+   premises of the sharing theorem *)
+Definition nx_K : list addr := [nx_owns 0; nx_owns 1; nx_owns 2; nx_owns 3].
+Definition nx_v (ss : list (Z * nat)) (p : byte) : vaa :=
+  {| version := 1; gsidx := 3; sigs := map (fun q => {| s_idx := fst q; s_data := nx_signs (snd q) [] |}) ss; ts := 1; tns := 0; nonce := 0;
+     echain := 2; tchain := 0; eaddr := repeat x02 32; seq := 5; cl := 1; payload := [p] |}.
+Example C01_two_quorums_premises_satisfiable :
+  qvalid ex_recover ex_keccak (nx_v [(0, 0%nat); (1, 1%nat); (2, 2%nat)] x01) nx_K /\
+  qvalid ex_recover ex_keccak (nx_v [(1, 1%nat); (2, 2%nat); (3, 3%nat)] x02) nx_K.
+Proof.
+  split; (split; [apply verify_sigs_iff; vm_compute; reflexivity|vm_compute; discriminate]).
+Qed.
+
 Print Assumptions C01_every_published_vaa_is_quorum_valid.
 Print Assumptions C01_store_holds_only_quorum_valid_vaas.
 Print Assumptions C01_quorum_valid_means_distinct_members.
@@ -283,3 +392,11 @@ Print Assumptions C01_restart_never_resurrects_an_older_set.
 Print Assumptions C01_learned_sets_are_contract_sets.
 Print Assumptions C01_error_free_fetch_delivers_the_current_contract_set.
 Print Assumptions C01_processor_holds_the_last_set_sent.
+Print Assumptions C01_composition_wiring_is_the_wiring_of_node_go.
+Print Assumptions C01_network_every_published_vaa_is_quorum_valid.
+Print Assumptions C01_network_stores_hold_only_quorum_valid_vaas.
+Print Assumptions C01_network_node_history_is_a_processor_history.
+Print Assumptions C01_two_quorum_vaas_share_signers.
+Print Assumptions C01_no_conflicting_quorum_vaas.
+Print Assumptions C01_honest_publications_of_one_message_agree.
+Print Assumptions C01_chain_origin_is_the_message_under_the_set_in_force.
